@@ -572,6 +572,28 @@ class Interp:
                 import dataclasses
                 if direct and dataclasses.is_dataclass(cls) and not hasattr(cls, '__post_init__') and is_repo_obj(object.__new__(cls)):
                     direct = False            # generated __init__ of a plain repository dataclass only stores its fields
+                if direct and dataclasses.is_dataclass(cls) and is_repo_func(getattr(cls, '__post_init__', None)) \
+                        and init is cls.__dict__.get('__init__') and is_repo_obj(object.__new__(cls)):
+                    # the generated __init__ of a repository dataclass: store the fields (defaults / factories for the
+                    # rest), then run the repository's own __post_init__ - interpreted
+                    try:
+                        ba = inspect.signature(cls).bind(*args, **kwargs)
+                    except TypeError as e:
+                        raise RaiseEx(e)
+                    ba.apply_defaults()
+                    inst = object.__new__(cls)
+                    for f in dataclasses.fields(cls):
+                        if f.init:
+                            val = ba.arguments[f.name]
+                            if val is dataclasses.MISSING or isinstance(val, dataclasses._HAS_DEFAULT_FACTORY_CLASS):
+                                val = f.default_factory()
+                            object.__setattr__(inst, f.name, val)
+                        elif f.default is not dataclasses.MISSING:
+                            object.__setattr__(inst, f.name, f.default)
+                        elif f.default_factory is not dataclasses.MISSING:
+                            object.__setattr__(inst, f.name, f.default_factory())
+                    self.call(cls.__post_init__, [inst], {})
+                    return inst
                 if direct:
                     raise Unsupported(f'native constructor {cls.__name__} with symbolic argument')
                 return self.native(cls, args, kwargs)
@@ -668,7 +690,11 @@ class Interp:
         elif isinstance(t, ast.Subscript):
             o = self.ev(t.value, env)
             k = self.ev(t.slice, env)
-            if is_sym(k) or is_sym(o):
+            if is_sym(o):
+                raise Unsupported('store with symbolic subscript')
+            if isinstance(o, dict) and (is_sym(k) or any(is_sym(kk) for kk in o)):
+                return self.dict_store(o, k, v)
+            if is_sym(k):
                 raise Unsupported('store with symbolic subscript')
             try:
                 o[k] = v
@@ -682,6 +708,23 @@ class Interp:
                 self.assign(a, b, env)
         else:
             raise Unsupported('assign target ' + type(t).__name__)
+
+    def dict_store(self, o, k, v):
+        """a mapping with symbolic keys: the store overwrites the entry whose key EQUALS k (one path per possible
+        coincidence, infeasible ones are pruned), otherwise it adds an entry"""
+        for kk in list(o):
+            if kk is k:
+                o[kk] = v
+                return
+            if not (is_sym(k) or is_sym(kk)):
+                if kk == k:
+                    o[kk] = v
+                    return
+                continue
+            if _comparable(k, kk) and self.branch(self.truth(self.compare(ast.Eq, k, kk))):
+                o[kk] = v
+                return
+        o[k] = v
 
     def setattr(self, o, attr, v):
         if isinstance(o, (Sym, SymObject)):
@@ -1444,9 +1487,11 @@ class Interp:
 
         def emit(sc):
             k = self.ev(e.key, sc)
-            if is_sym(k):
-                raise Unsupported('dict comprehension with symbolic key')
-            out[k] = self.ev(e.value, sc)
+            v = self.ev(e.value, sc)
+            if is_sym(k) or any(is_sym(kk) for kk in out):
+                self.dict_store(out, k, v)
+            else:
+                out[k] = v
         self._comp(e, env, emit)
         return out
 
